@@ -124,8 +124,15 @@ static void build(vx_bool symbolic_head) {
 }
 
 void h_combining_pass(void) {
-    unsigned count = nondet_unsigned(), passes = 1 + nondet_unsigned() % 2, age = nondet_unsigned();
-    vx_bool whole = nondet_unsigned() % 2;
+#ifndef VX_PASSES_MAX
+#define VX_PASSES_MAX 1
+#endif
+    unsigned count = nondet_unsigned(), passes = 1 + nondet_unsigned() % VX_PASSES_MAX, age = nondet_unsigned();
+#ifdef VX_WHOLE
+    vx_bool whole = nondet_unsigned() % 2;       /* combining() (the pass loop) or one combining_pass() */
+#else
+    vx_bool whole = 0;
+#endif
     w_init(count, 0xffff, passes);
     if (whole) __CPROVER_assume(((count + 1) & 0xffff) != 0);      /* no compaction in this group (compact_list has its own) */
     build(1);
